@@ -82,9 +82,7 @@ def upsert (h : Held) (res : List Res) : Held := res ++ h.filter (fun x => !(nam
 def sotwDeliver (y : Sys) (w : Wire) : Sys × List Wire :=
   let ct := y.sc w.ty
   let held := if w.ty.wildcard then w.resources else upsert ct.held w.resources
-  let nonce := match y.ssrv.st w.ty with
-    | some wr => wr.nonceSent
-    | none => ""
+  let nonce := w.nonce
   let ct' := { ct with held := held, nonce := nonce }
   let y1 := { y with sc := y.sc.set w.ty ct' }
   if ct.subscribed then
@@ -96,9 +94,7 @@ def sotwDeliver (y : Sys) (w : Wire) : Sys × List Wire :=
 def deltaDeliver (y : Sys) (w : Wire) : Sys × List Wire :=
   let ct := y.dc w.ty
   let held := applyDelta ct.held { resources := w.resources, removed := w.removed }
-  let nonce := match y.dsrv.st w.ty with
-    | some wr => wr.nonceSent
-    | none => ""
+  let nonce := w.nonce
   let ct' := { ct with held := held, nonce := nonce }
   let y1 := { y with dc := y.dc.set w.ty ct' }
   match processDelta y1.genReq y1.dsrv { ty := w.ty, sub := [], unsub := [], init := [], nonce := nonce, err := none } with
